@@ -30,7 +30,7 @@ ANCHORS = [
     "acnportal.acnsim.models.evse:BaseEVSE.plugin",
     "acnportal.acnsim.models.evse:BaseEVSE.unplug",
 ]
-REQUIRED = ["runs_judged", "run_called_again_on_finished_simulations", "second_simulations_built_from_objects_of_the_first", "second_simulation_shares:events", "second_simulation_shares:network", "plug_events", "unplug_events", "regime:back-to-back-reuse", "regime:simultaneous-events",
+REQUIRED = ["runs_judged", "executed_events_compared_with_the_event_history", "run_called_again_on_finished_simulations", "second_simulations_built_from_objects_of_the_first", "second_simulation_shares:events", "second_simulation_shares:network", "plug_events", "unplug_events", "regime:back-to-back-reuse", "regime:simultaneous-events",
             "regime:recompute-after-last-departure", "regime:one-period-session", "connectivity_runs", "second_runs_on_a_reused_queue", "regime:over-128-events-due-at-once", "sched:scripted",
             "sched:uncontrolled", "sched:sorted", "snapshots_checked", "runs_where_a_waiting_ev_took_over_a_freed_space", "simulators_built_on_an_empty_queue_filled_afterwards", "runs_with_all_events_beyond_period_100000", "runs_with_user_defined_arrival_events", "runs_where_the_scheduler_adds_the_next_arrival_from_inside_the_run"]
 BUDGET_S = {"quick": 240, "thorough": 3000}
@@ -114,6 +114,10 @@ def cases(seed, tier):
             c_["second_life"] = sorted(set(rng.choice([["events"], ["events"], ["network"], ["scheduler"], ["events", "network"],
                                                         ["events", "network", "scheduler"]])))
             c_["reset_evs"] = rng.random() < 0.5
+        if rng.random() < 0.06 and not c_.get("second_life") and not c_["reuse_queue"] and not c_["late_fill"]:
+            # one arrival is for a space the network does not have (a typo in the data): run() raises the network's KeyError in that
+            # period; the caller catches it and calls run() again
+            c_["ghost_at"] = rng.choice([s_["arrival"] for s_ in d["sessions"]] + [s_["departure"] for s_ in d["sessions"]])
         out.append(c_)
     # networks that assign spaces at run time (contrib StochasticNetwork): sessions name no space of their own, more cars than
     # spaces, so late arrivals wait and take over a freed space (their station changes after their plug-in event)
@@ -168,6 +172,8 @@ def run_case(case, obs):
         obs.ev("runs_where_the_scheduler_adds_the_next_arrival_from_inside_the_run")
         _judge(case, obs, d, sim, evs, probe)
         return
+    if case.get("ghost_at") is not None:
+        return _run_ghost(case, obs, d)
     sim, evs, probe = simrun.run_traced(d, late_fill=bool(case.get("late_fill")), snapshots=not case.get("far"))
     if case.get("far"):
         obs.ev("runs_with_all_events_beyond_period_100000")
@@ -214,6 +220,51 @@ def run_case(case, obs):
         keep = obs.sample
         _judge(dict(case, second=True), obs, d, sim2, evs2, probe2)
         obs.sample = keep
+
+
+def _run_ghost(case, obs, d):
+    """An arrival for an unregistered space makes run() raise in that period (the failure is the user's data, not the library's).
+    Whatever was executed before the failure - and whatever is executed when the caller calls run() again - must be in the event
+    history: every plug-in and unplug the network carried out is recorded as an event, in time order."""
+    from acnportal.acnsim.events import PluginEvent
+    from acnportal.acnsim.models import EV, Battery
+    from vlib.monitors import SimProbe
+    from vlib import build
+    sim, evs = build.build_sim(d)
+    t_g = case["ghost_at"]
+    sim.event_queue.add_event(PluginEvent(t_g, EV(t_g, t_g + 3, 5.0, "no-such-space", "ghost", Battery(50, 0, 7))))
+    probe = SimProbe(sim, snapshots=False)
+    probe.step_limit = simrun.last_event_ts(d) + 8
+    probe.attach()
+    raised = []
+    for attempt in range(4):
+        exc = probe.run()
+        if exc is None:
+            break
+        raised.append(type(exc).__name__)
+        if not isinstance(exc, KeyError):
+            break
+    probe.detach()
+    obs.ev("runs_with_an_arrival_for_an_unregistered_space")
+    if not raised:
+        obs.ev("ghost_arrival_not_refused_not_judged")
+        return
+    if raised[-1] != "KeyError" and len(raised) and not all(r_ == "KeyError" for r_ in raised):
+        obs.ev("ghost_runs_ended_by_another_exception_not_judged")
+    executed = [(t, {"P": "Plugin", "U": "Unplug"}[l_], info) for t, l_, info in probe.trace if l_ in "PU" and info != "ghost"]
+    recorded = [(e_.timestamp, getattr(e_, "event_type", None), getattr(getattr(e_, "ev", None), "session_id", None)) for e_ in sim.event_history]
+    missing = [x_ for x_ in executed if (x_[0], x_[1], x_[2]) not in [(int(a_), b_, c_) for a_, b_, c_ in recorded]]
+    obs.ev("executed_events_compared_with_the_event_history", len(executed))
+    wit = dict(scenario=d, ghost_arrival_at=t_g, run_raised=raised)
+    if missing:
+        obs.violate("executed_event_missing_from_event_history", f"the network carried out {missing[:4]} (period, kind, session), the event history has "
+                    f"no such event; run() raised {raised} (an arrival for an unregistered space in period {t_g})", **wit)
+    ts_ = [r_[0] for r_ in recorded]
+    if ts_ != sorted(ts_):
+        obs.violate("event_history_order", f"event history not in time order after run() raised {raised}: {ts_}", **wit)
+    if len(d["sessions"]) >= 2:
+        obs.nontrivial()
+    obs.sample = {"kind": "ghost_arrival", "at": t_g, "run_raised": raised, "executed": len(executed), "recorded": len(recorded)}
 
 
 def _judge(case, obs, d, sim, evs, probe):
